@@ -14,6 +14,7 @@ import (
 
 	ocispec "github.com/opencontainers/image-spec/specs-go/v1"
 	"oras.land/oras-go/v2/content/oci"
+	"oras.land/oras-go/v2/errdef"
 	"oras.land/oras-go/v2/registry/remote"
 	"pgregory.net/rapid"
 
@@ -45,6 +46,12 @@ type Case struct {
 	PlainHTTP  bool   `json:"plainHTTP,omitempty"`
 	View       string `json:"view,omitempty"`    // oci-tags: live, fs, tar
 	Chunked    bool   `json:"chunked,omitempty"` // listing documents without Content-Length
+	// TagSchema (referrers): the client is told the registry has no Referrers API,
+	// the referrers are listed by the index tagged sha256-<hex of the subject>
+	TagSchema bool `json:"tagSchema,omitempty"`
+	// FailWrapsNotFound: the callback's failure wraps errdef.ErrNotFound (e.g. a
+	// callback that fetches a listed item that is gone)
+	FailWrapsNotFound bool `json:"failWrapsNotFound,omitempty"`
 }
 
 var errCallback = errors.New("verif: callback failure")
@@ -59,7 +66,7 @@ func genCase(t *rapid.T) Case {
 	c.ClientN = rapid.SampledFrom([]int{0, 0, 1, 2, 5, c.Items}).Draw(t, "clientN")
 	c.LastMode = rapid.IntRange(0, 3).Draw(t, "lastMode")
 	c.LastIdx = rapid.IntRange(0, 40).Draw(t, "lastIdx")
-	c.LinkStyle = rapid.IntRange(0, 4).Draw(t, "linkStyle")
+	c.LinkStyle = rapid.IntRange(0, 5).Draw(t, "linkStyle")
 	c.EmptyLast = rapid.IntRange(0, 3).Draw(t, "emptyLast") == 0
 	c.OmitEmpty = c.EmptyLast && rapid.Bool().Draw(t, "omitEmpty")
 	c.PlainHTTP = rapid.Bool().Draw(t, "plainHTTP")
@@ -75,6 +82,13 @@ func genCase(t *rapid.T) Case {
 	}
 	if rapid.IntRange(0, 4).Draw(t, "failMode") == 0 {
 		c.FailAt = rapid.IntRange(1, 4).Draw(t, "failAt")
+		c.FailWrapsNotFound = rapid.Bool().Draw(t, "failWrapsNotFound")
+	}
+	if c.Kind == "referrers" && rapid.IntRange(0, 3).Draw(t, "tagSchema") == 0 {
+		c.TagSchema = true
+		if c.FailAt > 1 {
+			c.FailAt = 1 // one callback at most
+		}
 	}
 	if c.Kind == "oci-tags" {
 		c.View = rapid.SampledFrom([]string{"live", "fs", "tar"}).Draw(t, "view")
@@ -139,6 +153,9 @@ func runCase(c Case) (res vt.Result, fail *vt.Fail) {
 	cb := func(page []string) error {
 		calls++
 		if c.FailAt > 0 && calls == c.FailAt {
+			if c.FailWrapsNotFound {
+				return fmt.Errorf("%w: item is gone: %w", errCallback, errdef.ErrNotFound)
+			}
 			return errCallback
 		}
 		kept = append(kept, page)
@@ -203,7 +220,21 @@ func runCase(c Case) (res vt.Result, fail *vt.Fail) {
 		}
 		repo, _ := remote.NewRepository(host + "/" + repoName)
 		repo.Client, repo.PlainHTTP, repo.ReferrerListPageSize, repo.MaxMetadataBytes = client, c.PlainHTTP, c.ClientN, int64(c.MaxMeta)
-		repo.SetReferrersCapability(true)
+		repo.SetReferrersCapability(!c.TagSchema)
+		if c.TagSchema {
+			res.Classes = append(res.Classes, "referrers-by-tag-schema")
+			var entries []string
+			for _, r := range refs {
+				entries = append(entries, fmt.Sprintf(`{"mediaType":%q,"digest":%q,"size":%d,"artifactType":%q}`, gen.MTImage, r.digest, len(rp.Manifests[r.digest].Bytes), r.at))
+			}
+			idx := []byte(`{"schemaVersion":2,"mediaType":"application/vnd.oci.image.index.v1+json","manifests":[` + strings.Join(entries, ",") + `]}`)
+			if len(refs) > 0 || c.Items%2 == 0 {
+				// (with no referrers the index may or may not exist)
+				idg := regmodel.DigestOf("sha256", idx)
+				rp.Manifests[idg] = &regmodel.Manifest{Bytes: idx, MediaType: "application/vnd.oci.image.index.v1+json"}
+				rp.Tags[strings.Replace(subjectDigest, ":", "-", 1)] = idg
+			}
+		}
 		err = repo.Referrers(ctx, ocispec.Descriptor{MediaType: gen.MTImage, Digest: digestOfString(subjectDigest), Size: int64(len(subj))}, filter, func(rs []ocispec.Descriptor) error {
 			var page []string
 			for _, r := range rs {
@@ -246,7 +277,11 @@ func runCase(c Case) (res vt.Result, fail *vt.Fail) {
 			return res, vt.Failf("C15/next-page-url", "page %d was requested from %s, the Link of page %d (requested from %s) points to the same path on the same host", i+1, log[i].URL, i, log[i-1].URL)
 		}
 		q := cur.Query()
-		if q.Get("last") == "" {
+		if c.LinkStyle == 5 {
+			if q.Get("marker") == "" {
+				return res, vt.Failf("C15/next-page-url", "page %d request %s lost the continuation parameter of the Link", i+1, log[i].URL)
+			}
+		} else if q.Get("last") == "" {
 			return res, vt.Failf("C15/next-page-url", "page %d request %s lost the 'last' parameter of the Link", i+1, log[i].URL)
 		}
 		if c.LinkStyle == 4 && q.Get("extra") != "1" {
